@@ -5,6 +5,9 @@
 //	sound       a valid transaction of every shape and every single-fault variant
 //	            of it on every representative chain state; PoolTx/VerifyTx must
 //	            agree with an independent predicate; a rejection changes nothing
+//	            plus the script well-formedness dimension (every offset-carrying
+//	            opcode x target class x form, truncations, unknown opcodes, type
+//	            operands) through PoolTx, VerifyTx and inside a block via AddBlock
 //	fee         the fee calculator's value is the acceptance threshold, for all
 //	            signer shapes x attribute mixes x script lengths x fee factors
 //	encoding    every accepted spelling of the same content (non-minimal
@@ -132,17 +135,18 @@ const (
 )
 
 type env struct {
-	omu   sync.Mutex
-	outs  map[string]map[string]int
-	r     *vk.Run
-	sc    *chainx.Scenario
-	cast  *conflictCast
-	st    []state
-	f     *findings
-	thor  bool
-	count struct {
-		sound, soundRej, fee, enc, encVerdict, block vk.Counter
-		states                                       *vk.Set
+	batches map[string][]chainx.Batch
+	omu     sync.Mutex
+	outs    map[string]map[string]int
+	r       *vk.Run
+	sc      *chainx.Scenario
+	cast    *conflictCast
+	st      []state
+	f       *findings
+	thor    bool
+	count   struct {
+		sound, soundRej, fee, enc, encVerdict, block, scripts vk.Counter
+		states                                                *vk.Set
 	}
 }
 
@@ -406,6 +410,7 @@ func hexs(txs []*transaction.Transaction) []string {
 // ---- TestCheck -----------------------------------------------------------------------------------
 
 func TestCheck(t *testing.T) {
+	vk.UseT(t)
 	r := vk.Start("C07", "model_checking", 170*time.Second, 24*time.Minute)
 	defer vk.CleanScratch()
 	e, err := newEnv(r)
@@ -427,8 +432,10 @@ func TestCheck(t *testing.T) {
 	want := func(s string) bool { return only == "" || strings.Contains(only, s) }
 	var soundCov, feeCov, blockCov map[string]any
 	t0 := time.Now()
+	var scriptCov map[string]any
 	if want("sound") {
 		soundCov = e.runSound()
+		scriptCov = e.runScripts()
 	}
 	t1 := time.Now()
 	var attrBlockCov map[string]any
@@ -455,6 +462,8 @@ func TestCheck(t *testing.T) {
 		"encoding_variants_submitted":            int(e.count.encVerdict.Get()),
 		"proposable_pool_contents":               int(e.count.block.Get()),
 		"sound":                                  soundCov,
+		"sound_script_wellformedness":            scriptCov,
+		"script_submissions":                     int(e.count.scripts.Get()),
 		"fee":                                    feeCov,
 		"proposable":                             blockCov,
 		"proposable_attribute_boundaries":        attrBlockCov,
@@ -465,6 +474,7 @@ func TestCheck(t *testing.T) {
 	r.Finish(cov, []string{
 		"the validity predicate takes the witness cost of standard contracts from the fee calculator (its exactness is what the fee sub-check decides) and of other witnesses from a verification run, as the RPC server does",
 		"admission paths: wire bytes -> NewTransactionFromBytes -> PoolTx (P2P/RPC), wire bytes -> Transaction.DecodeBinary -> PoolTx (block body codec), structure -> VerifyTx; faults the codec itself rejects count as rejections of the byte paths",
+		"script well-formedness = independent reference (script_test.go: own opcode/operand table, all offset-carrying instructions incl. PUSHA, TRY both offsets, item type operands); a target equal to len(script) is well-formed as scparser.Context.CalcJumpOffset documents; only the transaction script is judged - well-formedness of witness scripts is not demanded by the statement (witnesses must 'verify') and is left out",
 		"required attribute fee = independent reference from the Policy getter getAttributeFee(type) (read by a test invocation): Conflicts x signers, NotaryAssisted x (NKeys+1), others x 1; Blockchain.CalculateAttributesFee is never consulted; fee-per-byte and the execution fee factor are read from the plain getters",
 		"single-validator family (committee = validator), P2PSigExtensions on, all hardforks active; account 4 is the only notary node; oracle node (account 3) and a pending request exist in the state named oracle only",
 		"NotaryAssisted: only the ledger rules (Notary signer present, attribute fee by NKeys) are in the oracle; NKeys consistency with the witnesses is the notary service's rule, not the ledger's",
